@@ -167,7 +167,7 @@ func c09Requests(p *Program, t *T) []c09Req {
 }
 
 func runC09(e *Env) {
-	e.Rule = "registration programs (as C04) whose handlers are armed by request headers: the panicking request designates one handler (any global/group/route middleware, main handler, custom NotFound/NotAllowed handler; before or after its Next()) or the OnError handler, a panic value (string, error, int, struct) and an action before the panic (nothing, SetStatus, body write = committed, AddError); OnPanic hook absent / does nothing / status only / status+body / echoes the recovered value; history = healthy requests, the panicking one, an overlapping pair (a second request served by the same router while the first is parked inside a handler) and 3..10 further requests of all kinds on the same router (same pooled contexts). Oracle: hook present => no escape, hook ran once with the same value under CTXRecoverResult, no handler entered after the panic, writer log == C08 state machine over (ops before the panic, hook ops, end of request); hook absent => the same value propagates; always: every later request's outcome equals the outcome on a freshly built twin router. Also the in-chain recover middleware pkg/handlers.PanicsHandler: no escape, 500, healthy afterwards. Non-trivial: every history (each contains a panic); distinct by (program, plan). A third of the hooks serve another request on the same router before they answer (it must get its own context and behave as on a twin); a quarter of the panicking requests carry a cancelled or expired request context. More than half of the routers have an OnError handler that answers with an error page (after a panic it must not run, whatever errors were collected before). A quarter of the routers put a middleware in front that replaces c.Resp by a pass-through writer and restores it after Next() without defer (the panic skips the restore; the next request on that context must not notice). Part behind-request-logger: pkg/handlers.ConsoleLogger first and a panic on one of its ignored paths (/health, /status): the logger must not act as a recovery middleware."
+	e.Rule = "registration programs (as C04) whose handlers are armed by request headers: the panicking request designates one handler (any global/group/route middleware, main handler, custom NotFound/NotAllowed handler; before or after its Next()) or the OnError handler, a panic value (string, error, int, struct) and an action before the panic (nothing, SetStatus, body write = committed, AddError); OnPanic hook absent / does nothing / status only / status+body / echoes the recovered value; history = healthy requests, the panicking one, an overlapping pair (a second request served by the same router while the first is parked inside a handler) and 3..10 further requests of all kinds on the same router (same pooled contexts). Oracle: hook present => no escape, hook ran once with the same value under CTXRecoverResult, no handler entered after the panic, writer log == C08 state machine over (ops before the panic, hook ops, end of request); hook absent => the same value propagates; always: every later request's outcome equals the outcome on a freshly built twin router. Also the in-chain recover middleware pkg/handlers.PanicsHandler: no escape, 500, healthy afterwards. Non-trivial: every history (each contains a panic); distinct by (program, plan). A third of the hooks serve another request on the same router before they answer (it must get its own context and behave as on a twin); a quarter of the panicking requests carry a cancelled or expired request context. More than half of the routers have an OnError handler that answers with an error page (after a panic it must not run, whatever errors were collected before). A quarter of the routers put a middleware in front that replaces c.Resp by a pass-through writer and restores it after Next() without defer (the panic skips the restore; the next request on that context must not notice). Part behind-request-logger: pkg/handlers.ConsoleLogger first and a panic on one of its ignored paths (/health, /status): the logger must not act as a recovery middleware. The hook keeps c.Data() and c.Copy() of the panicking request; after the history both still hold the recovered value."
 	e.Assumptions = []string{
 		"panic values are comparable (==)",
 		"the statement's 'no later handler runs' is checked for the OnPanic hook only; PanicsHandler lets the outer loop continue by design and is only checked for containment, status and router health",
@@ -476,6 +476,9 @@ func c09Case(t *T) {
 				v, ok := c.Get(rux.CTXRecoverResult)
 				rec.Extra["recovered"] = v
 				rec.Extra["recovered_ok"] = ok
+				// the hook hands the request's data to an error reporter that works on it later
+				rec.Extra["hook_kept_data"] = c.Data()
+				rec.Extra["hook_kept_copy"] = c.Copy()
 				if nest := c.Req.Header.Get("X-Hook-Nest"); nest != "" {
 					// another request is served by the same router while the hook is still working
 					parts := strings.SplitN(nest, "|", 2)
@@ -606,6 +609,21 @@ func c09Case(t *T) {
 	}
 
 	rec, pv, escaped := send(router, q, hdr)
+	defer func() {
+		// after all later requests: what the hook kept of the panicking request is still that request's
+		if m, _ := rec.Extra["hook_kept_data"].(map[string]any); m != nil {
+			t.Count("hook.kept_data_rechecked", 1)
+			if m[rux.CTXRecoverResult] != want {
+				t.Fail("data-kept-by-the-hook-changed-after-later-requests", "the OnPanic hook kept c.Data() of the panicking request (%v); after the following requests that map holds %#v under CTXRecoverResult, the handler had panicked with %#v (map now: %v)", plan, m[rux.CTXRecoverResult], want, m)
+				return
+			}
+		}
+		if cp, _ := rec.Extra["hook_kept_copy"].(*rux.Context); cp != nil {
+			if v, _ := cp.Get(rux.CTXRecoverResult); v != want {
+				t.Fail("data-kept-by-the-hook-changed-after-later-requests", "the OnPanic hook kept c.Copy() of the panicking request (%v); after the following requests the copy holds %#v under CTXRecoverResult, the handler had panicked with %#v", plan, v, want)
+			}
+		}
+	}()
 	t.Tracef("panicking request %s %v: escaped=%v value=%v, writer [%s] body %q, events %v", q, hdr, escaped, pv, rec.CallLog(), rec.Body.String(), rec.Events)
 	sawPanic := false
 	for _, ev := range rec.Events {
